@@ -168,7 +168,8 @@ class Family:
             vs = [0, 1, 2, 7, hi, hi - 1, lo, lo + 1]
             return list(dict.fromkeys(v for v in vs if lo <= v <= hi))
         if c == 'F':
-            return [0.0, 1.0, -2.5, 0.1, 1e10, 3.0e38, float('inf'), 16777217.0]
+            return [0.0, 1.0, -2.5, 0.1, 1e10, 3.0e38, float('inf'), 16777217.0,
+                    float('nan'), -0.0, float('-inf')]
         if c == 's':
             return [b'\x00' * 6, b'abcdef', b'\xff' * 6, b'\x00\x01\x02\x03\x04\x05']
         if c == 'O':
